@@ -4,7 +4,7 @@ GEN  : catalogue and random forests (every type, every typed null in every posit
        annotations, field names) rendered in text and binary by the specification; malformed documents from the
        C07 catalogue for the error-report clause.
 EXEC : the ion-go binary built from the working tree, run as a subprocess: output formats text, pretty, binary,
-       events, none x input from a file and from standard input; stdout, the -e error report, stderr, status.
+       events, none x input from a file and from standard input (a pipe delivering the document in two bursts); stdout, the -e error report, stderr, status.
 JUDGE: Judge_Cli (TLC): text/pretty/binary output decoded by the specification's decoders denotes the input's
        values; events output is $ion_event_stream followed by exactly Cli!Events(forest) (one SCALAR per scalar
        with a value_text literal that decodes to the value, CONTAINER_START/END per container, one STREAM_END,
@@ -64,8 +64,26 @@ def run_cli(cli, d, k, doc, fmt, use_stdin):
     args = [cli, "process", "-f", fmt, "-o", outp, "-e", errp]
     try:
         if use_stdin:
-            with open(inp, "rb") as fin:
-                p = subprocess.run(args, stdin=fin, stdout=subprocess.PIPE, stderr=subprocess.PIPE, timeout=20)
+            # a pipe that delivers the document in two bursts (a producer that is still writing): a short read is not the end
+            data = bytes(doc["bytes"])
+            cut = len(data) // 2
+            pr = subprocess.Popen(args, stdin=subprocess.PIPE, stdout=subprocess.PIPE, stderr=subprocess.PIPE)
+            try:
+                pr.stdin.write(data[:cut])
+                pr.stdin.flush()
+                time.sleep(0.05)
+                pr.stdin.write(data[cut:])
+                pr.stdin.close()
+            except (BrokenPipeError, OSError):
+                pass
+            try:
+                pr.wait(timeout=20)
+            except subprocess.TimeoutExpired:
+                pr.kill()
+                raise
+            p = subprocess.CompletedProcess(args, pr.returncode, pr.stdout.read(), pr.stderr.read())
+            pr.stdout.close()
+            pr.stderr.close()
         else:
             p = subprocess.run(args + [inp], stdin=subprocess.DEVNULL, stdout=subprocess.PIPE, stderr=subprocess.PIPE, timeout=20)
         status, stderr, stdout = p.returncode, p.stderr, p.stdout
